@@ -6,7 +6,7 @@ cd "$(dirname "$0")/.."
 OUT=${OUT:-seeded/REGRESSION.txt}
 TMP=$(mktemp)
 IDS="$@"
-[ -z "$IDS" ] && IDS=$(ls seeded | grep -E '^(C[0-9]+b?|F[A-Z]|T[0-9])-[0-9]+$')
+[ -z "$IDS" ] && IDS=$(ls seeded | grep -E '^(C[0-9]+b?|F[A-Z]|T[0-9]+)-[0-9]+$')
 for id in $IDS; do
   props=$(python3 - "$id" <<'PY'
 import json,re,sys
